@@ -2,7 +2,7 @@ use crate::error::{Sm2Error, Sm2Result};
 use crate::fields::fp64::{fp_sqrt, fp_from_mont, fp_to_mont, SM2_P};
 use crate::fields::FieldModOperation;
 use crate::sm2p256_table::SM2P256_PRECOMPUTED;
-use crate::u256::{u256_from_be_bytes, SM2_ZERO, U256};
+use crate::u256::{u256_cmp, u256_from_be_bytes, SM2_ZERO, U256};
 
 #[derive(Debug, Clone, Eq, PartialEq, Copy)]
 pub struct Point {
@@ -88,6 +88,9 @@ impl Point {
     }
 
     pub(crate) fn from_byte(b: &[u8]) -> Sm2Result<Point> {
+        if b.is_empty() {
+            return Err(Sm2Error::InvalidPublic);
+        }
         let flag = b[0];
         // Compressed Point
         if flag == 0x02 || flag == 0x03 {
@@ -100,7 +103,11 @@ impl Point {
             } else {
                 y_q = 1
             }
-            let x = fp_to_mont(&U256::from_byte_be(&b[1..]));
+            let x_raw = U256::from_byte_be(&b[1..]);
+            if u256_cmp(&x_raw, &SM2_P) >= 0 {
+                return Err(Sm2Error::InvalidPublic);
+            }
+            let x = fp_to_mont(&x_raw);
             let xxx = x.fp_mul(&x).fp_mul(&x);
             let ax = x.fp_mul(&crate::fields::fp64::SM2_MODP_MONT_A);
             let yy = xxx
@@ -119,17 +126,26 @@ impl Point {
             })
         }
         // uncompressed Point
-        else {
+        else if flag == 0x04 {
             if b.len() != 65 {
                 return Err(Sm2Error::InvalidPublic);
             }
-            let x = fp_to_mont(&u256_from_be_bytes(&b[1..33]));
-            let y = fp_to_mont(&u256_from_be_bytes(&b[33..65]));
-            Ok(Point {
-                x,
-                y,
+            let x_raw = u256_from_be_bytes(&b[1..33]);
+            let y_raw = u256_from_be_bytes(&b[33..65]);
+            if u256_cmp(&x_raw, &SM2_P) >= 0 || u256_cmp(&y_raw, &SM2_P) >= 0 {
+                return Err(Sm2Error::InvalidPublic);
+            }
+            let p = Point {
+                x: fp_to_mont(&x_raw),
+                y: fp_to_mont(&y_raw),
                 z: crate::fields::fp64::SM2_MODP_MONT_ONE,
-            })
+            };
+            if !p.is_valid_affine_point() {
+                return Err(Sm2Error::NotOnCurve);
+            }
+            Ok(p)
+        } else {
+            Err(Sm2Error::InvalidPublic)
         }
     }
 
